@@ -9,7 +9,7 @@ META = {
             'indent/newline/baseIndent are sentinel strings so that formatter whitespace is recognisable; inlineBreak, repeat '
             'counts and a text/attribute payload are symbolic [S]; other options are solver-decided selectors [C].',
     'bounds': {
-        'quick': '20 templates (block, inline, text, snippets, groups, void elements) x 6 syntaxes of the HTML writer; '
+        'quick': '22 templates (block, inline, text, snippets, groups, void elements) x 6 syntaxes of the HTML writer; '
                  'inlineBreak any integer, formatLeafNode both, formatSkip/formatForce from 3 choices each, repeat count 1..3, '
                  'payload 1..2 chars; comments on/off; three self-closing styles',
         'thorough': 'the same with repeat count 1..4 and a second family of 20 generated skeletons',
@@ -28,6 +28,7 @@ TEMPLATES = [
     'ex>ey>ez', 'ex>ey+ez', 'ex>(ey>ez)*901+ew', 'ex>em+strong+ey', 'ex>em*901', 'p>em+em+em+em', 'ex>em>ey',
     'ex{QZ1}>ey', 'ex>{QZ1}+{b}', 'ex#i.c>ey.d', 'ul>li.it*901>a', 'ex>br/+ey', 'html>body>ex', 'ex>ey[t=QZ1]/',
     'ex>img+em', '(ex>ey)+(ez>em)*901', 'ex>ey^ez>em', 'table>tr*901>td*2', 'ex>ey{QZ1}+em{b}', 'body>ex+ey',
+    'ex>{[${1}${2:x}]}>ey*901', '{if ${1}${2:c} then}>ex+ey',
 ]
 XSL_TEMPLATES = ['xsl:variable[name=a select=b]>ex', 'tm>ch>wh+ot', 'vare>ex{QZ1}', 'xsl:with-param[name=a select=b]{QZ1}',
                  'ex>wp*901']
